@@ -111,7 +111,10 @@ RULE = ("per format, files of 1..60 records from random event lists: lon [-180,1
         "with QUOTE_ALL / QUOTE_NONNUMERIC policies (every cell, or the text cells, in quotes). Resolution band: a record "
         "written with digits below the format's resolution (JMA / CSEP below the millisecond, ZMAP / HORUS / NDK a fraction of "
         "a second) may load as any instant between the reference reader's answer and the written instant; a file of more "
-        "than 2^16 records in four formats per quick run")
+        "than 2^16 records in four formats per quick run. Round 7: a quarter of the files under numpy.errstate(divide, invalid, "
+        "over = raise) + decimal prec 2..6; ZMAP optional error columns holding NaN; every sixth file after rejected calls "
+        "(a non-catalog file through the same entry point, an unknown type); loaders that are callable objects / partials; "
+        "user subclass overriding accessors with __len__ / __bool__")
 
 EPOCH = datetime.datetime(1970, 1, 1)
 FORMATS = ("csep-csv", "zmap", "jma-csv", "ingv_horus", "ndk")
@@ -311,6 +314,7 @@ def gen_csep(rng, n):
 def gen_zmap(rng, n):
     ncol = rng.choice([10, 10, 11, 12, 13, 14])
     sep = rng.choice([" ", "\t", "   "])
+    nan_opt = ncol > 10 and rng.random() < 0.4
     recs = []
     for k in range(n):
         dt, b = _instant(rng, rng.choice([0, 2, 6]))
@@ -328,12 +332,15 @@ def gen_zmap(rng, n):
         sec = f"{dt.second}.{dt.microsecond:06d}".rstrip("0").rstrip(".") if dt.microsecond else _num(rng, dt.second, True)
         cols = [_spell(rng, lon), _spell(rng, lat), ytxt, _num(rng, dt.month, True), _num(rng, dt.day, True),
                 _spell(rng, mag), _spell(rng, dep), _num(rng, dt.hour, True), _num(rng, dt.minute, True), sec]
-        cols += [repr(round(rng.uniform(0, 5), 2)) for _ in range(ncol - 10)]
+        # the optional error columns (10..13): ZMAP files hold NaN there when the uncertainty is unknown
+        opt = [rng.choice(["NaN", "nan", "NAN"]) if nan_opt and rng.random() < 0.7 else repr(round(rng.uniform(0, 5), 2))
+               for _ in range(ncol - 10)]
+        cols += opt
         whole = dt.replace(microsecond=0)
-        recs.append(dict(text=cols, mod=[_fr(c) for c in cols],
+        recs.append(dict(text=cols, mod=[_fr(c) if c.lower() != "nan" else "0/1" for c in cols],
                          exp=[_ms(whole), repr(lat), repr(lon), repr(dep), repr(mag)],
                          boundary=b or dt.microsecond != 0 or ystyle == "decimal", band=_sec_band(whole, dt.microsecond)))
-    return dict(fmt="zmap", sep=sep, recs=_repeat(rng, recs))
+    return dict(fmt="zmap", sep=sep, recs=_repeat(rng, recs), **({"nan_cols": True} if nan_opt else {}))
 
 
 _OFFS = [0, 0, 9 * 60, 9 * 60, -12 * 60, 14 * 60, 5 * 60 + 30, 5 * 60 + 45, -(3 * 60 + 30), -8 * 60, 60, -60, 13 * 60, -11 * 60,
@@ -549,7 +556,10 @@ HOWS = ["type",                  # csep.load_catalog(path, type=fmt)
         "keyword-filename",      # csep.load_catalog(filename=path, type=fmt, format='native', loader=None, apply_filters=False)
         "subclass",              # class Sub(CSEPCatalog): pass ; Sub.load_catalog(path, loader=readers.X) -> a Sub
         "subclass-kw",           # Sub.load_catalog(filename=path, loader=readers.X, name=...)
-        "warnings-error"]        # csep.load_catalog(path, type=fmt) with warnings (except deprecation notices) as exceptions
+        "warnings-error",        # csep.load_catalog(path, type=fmt) with warnings (except deprecation notices) as exceptions
+        # round 7 (j): user callables of other kinds
+        "callable-object",       # loader = an object with __call__ (no __name__, no signature to probe)
+        "partial-loader"]        # loader = functools.partial(readers.X)
 HOWS_NDK = ["ndk-stringio", "ndk-bytesio", "ndk-open-text", "ndk-open-binary", "ndk-text-data", "ndk-bytes-data"]
 AWAITING_DECISION = ["custom-type-string-with-loader"]   # load_catalog(f, type='mine', loader=fn): KeyError 'mine' (see notes); not exercised
 
@@ -576,6 +586,20 @@ def _accessors(c, rows):
         if dts[k].replace(tzinfo=None) != want:
             return f"get_datetimes()[{k}] = {dts[k]} for origin_time {rows[k][0]}"
     return None
+
+
+@contextlib.contextmanager
+def numeric_state(prec):
+    """round 7 (k): the calling program's global numeric state — numpy raising on divide / invalid / overflow, a decimal
+    context of a few digits — must not change what a file decodes to"""
+    if not prec:
+        yield
+        return
+    import decimal
+    import numpy
+    with numpy.errstate(divide="raise", invalid="raise", over="raise"), decimal.localcontext() as dc:
+        dc.prec = prec
+        yield
 
 
 _NOTES = []      # observations of _loaded that are not verdicts (drained into the histogram by check_case)
@@ -619,13 +643,32 @@ def _loaded(path, fmt, zone=None, how="type", other=None):
                 c = csep.load_catalog(path, type=fmt, apply_filters=True, filters=["magnitude >= -1000.0", "depth < 1e9"])
             elif how == "apply-filters-str":
                 c = csep.load_catalog(path, type=fmt, apply_filters=True, filters="magnitude >= -1000.0")
+            elif how == "callable-object":
+                class Loader:
+                    def __init__(self): self.calls = 0
+                    def __call__(self, fname):
+                        self.calls += 1
+                        return rd(fname)
+                ld = Loader()
+                c = csep.load_catalog(path, type=other or "csep-csv", loader=ld)
+                if not ld.calls:
+                    return "err:LoaderNotUsed:the callable object passed to load_catalog was never called"
+            elif how == "partial-loader":
+                import functools
+                c = csep.load_catalog(path, type=fmt, loader=functools.partial(rd))
             elif how == "positional":
                 c = csep.load_catalog(path, fmt, "native", None, False)
             elif how == "keyword-filename":
                 c = csep.load_catalog(filename=path, type=fmt, format="native", loader=None, apply_filters=False)
             elif how in ("subclass", "subclass-kw"):
-                class Sub(CSEPCatalog):          # a user's catalog class: inherits everything
-                    pass
+                import numpy as _np
+
+                class Sub(CSEPCatalog):          # a user's catalog class: overrides accessors consistently, is falsy when empty
+                    def get_magnitudes(self): return _np.array(self.catalog["magnitude"], copy=True)
+                    def get_epoch_times(self): return _np.array(self.catalog["origin_time"], copy=True)
+                    def get_number_of_events(self): return 0 if self.catalog is None else int(self.catalog.shape[0])
+                    def __len__(self): return self.get_number_of_events()
+                    def __bool__(self): return len(self) > 0
                 c = Sub.load_catalog(path, loader=rd) if how == "subclass" else \
                     Sub.load_catalog(filename=path, loader=rd, name="sub-" + fmt)
                 if type(c) is not Sub:       # which class comes back is not the property's business (events are): counted
@@ -751,7 +794,24 @@ def check_case(ctx, spec, tag, light=False):
             run.count("ndk-sec60")
     how = spec.get("how", "type")
     run.count("entry:" + how)
-    got = _loaded(path, fmt, zone, how, spec.get("other"))
+    if spec.get("prelude"):
+        # round 7 (i): calls the library rejects (a file that is not of this format through the same entry point, an unknown
+        # type string), caught by the caller, BEFORE the judged load; module-level state must not carry anything over
+        bad = os.path.join(ctx.dir, "not_a_catalog." + path.rsplit(".", 1)[-1])
+        with open(bad, "w") as f:
+            f.write("this is not a catalog\n1 2 three\n\n,,;;\n")
+        r = _loaded(bad, fmt, zone, how, spec.get("other"))
+        run.count("prelude: load of a non-catalog file " + ("rejected, caught" if isinstance(r, str) else "returned events"))
+        try:
+            import csep
+            csep.load_catalog(path, type="no-such-type")
+        except Exception:
+            pass
+        os.unlink(bad)
+    with numeric_state(spec.get("numstate")):
+        got = _loaded(path, fmt, zone, how, spec.get("other"))
+    if spec.get("numstate"):
+        run.count("numeric state: numpy.errstate(divide, invalid, over = raise) + decimal prec %d" % spec["numstate"])
     while _NOTES:
         run.count("observed: " + _NOTES.pop())
     os.unlink(path)
@@ -780,9 +840,18 @@ def check_case(ctx, spec, tag, light=False):
     if light:
         # a long file: the text model runs in its own driver process with an unlimited stack (its line / character
         # recursions are not tail calls); if even that is exhausted the comparison is skipped and said so
+        if spec.get("nan_cols"):
+            run.count("zmap: NaN in the optional error columns (text model skipped)")
+            return
         _compare_text_model(ctx, case, got, _big_text_model(fmt, written), [(True if r.get("tie") else r.get("band")) for r in recs])
         return
-    t = ctx.drv.ask((f"c19_ndk_mw " if fmt == "ndk" else f"c19_text {fmt} ") + written.encode('latin-1').hex())
+    if spec.get("nan_cols"):
+        # the word NaN is not a numeral of the text model's grammar (its floats are rationals); the token model (which
+        # ignores the optional columns, as the reader does) and the direct oracle judge these files
+        run.count("zmap: NaN in the optional error columns (text model skipped)")
+        t = None
+    else:
+        t = ctx.drv.ask((f"c19_ndk_mw " if fmt == "ndk" else f"c19_text {fmt} ") + written.encode('latin-1').hex())
     if fmt == "jma-csv":
         j = ctx.drv.ask(req)                                  # exact model (what the theorems are about)
         i = ctx.drv.ask(req.replace("c19_jma ", "c19_jmaf ", 1))  # float path, compared bit for bit
@@ -856,7 +925,8 @@ def flush(ctx):
     for case, i, got, j, ties, t, bands in ctx.pending:
         fmt = case["fmt"]
         loose = [(True if a else b) for a, b in zip(ties, bands)] if ties else bands
-        _compare_text_model(ctx, case, got, out[t], loose)
+        if t is not None:
+            _compare_text_model(ctx, case, got, out[t], loose)
         if i is None:
             continue
         m = out[i]
@@ -1259,8 +1329,13 @@ def run(run, rng, tier):
             for k in range(per):
                 n = rng.choice([1, 2, 3, 5, 10, 20, 60, rng.randint(1, 60)])
                 how = "type" if rng.random() < 0.5 else rng.choice(HOWS + (HOWS_NDK if fmt == "ndk" else []))
+                extra = {}
+                if k % 4 == 1:
+                    extra["numstate"] = 2 + k % 5
+                if k % 6 == 2:
+                    extra["prelude"] = True
                 check_case(ctx, dict(GEN[fmt](rng, n), tz=ZONES[k % len(ZONES)], eol="crlf" if k % 7 == 3 else "lf",
-                                     how=how, other=rng.choice(others)), "random")
+                                     how=how, other=rng.choice(others), **extra), "random")
             flush(ctx)
         # quick: the four line-oriented formats always, NDK (5 lines per record, 27 MB) in the thorough tier
         big = list(FORMATS) if tier != "quick" else [f for f in FORMATS if f != "ndk"]
